@@ -56,7 +56,7 @@ def lorentz_work(payload):
             ref = kin.boost(P, beta)
             g = 1 / math.sqrt(1 - s * s)
             tol = 1e-12 * g * g
-            res.case(nontrivial_key=("boost", s, k) if s > 0 else None)
+            res.case(nontrivial_key=("boost", s, k) if s > 0 else None, outcome=("boost", s))
             scale = np.maximum(1.0, np.abs(ref).max(axis=-1, keepdims=True))
             if not np.all(np.abs(b - ref) <= 1e-11 * g * scale):
                 res.violation("boost:value", "boost by %r*%r deviates from the Lorentz transformation (max %g)" % (s, n.tolist(), np.abs(b - ref).max()), case)
@@ -183,7 +183,7 @@ def chain_work(payload):
             except Exception as e:
                 res.violation("chain:exception", "chain %s: %s: %s" % (ch, type(e).__name__, e), case)
                 continue
-            res.case(nontrivial_key=("chain", n, ci, lam), n=N)
+            res.case(nontrivial_key=("chain", n, ci, lam), n=N, outcome=("chain", n, ci))
             for p, m in mass.items():
                 got = np.asarray(ms2[p]) if p in ms2 else None
                 # squared masses: m = sqrt(E^2-p^2) is ill-conditioned for the massless final particle
@@ -216,7 +216,7 @@ def dalitz_work(payload):
         s23 = np.array([p[1] for p in pts])
         p1, p2, p3 = [np.asarray(x) for x in Dalitz(M, m1, m2, m3).generate_p(tf.constant(s12), tf.constant(s23))]
         case = {"part": "dalitz", "masses": [M, m1, m2, m3], "seed": seed, "K": payload["K"]}
-        res.case(nontrivial_key=("dalitz", M, m1), n=len(pts))
+        res.case(nontrivial_key=("dalitz", M, m1), n=len(pts), outcome=("dalitz", len(pts)))
         if not (np.allclose(kin.mass(p1) ** 2, m1 * m1, atol=1e-9) and np.allclose(kin.mass(p2) ** 2, m2 * m2, atol=1e-9) and np.allclose(kin.mass(p3) ** 2, m3 * m3, atol=1e-9)):
             res.violation("dalitz:onshell", "Dalitz.generate_p(%r): particles off shell" % ([M, m1, m2, m3],), case)
         if not np.allclose(p1 + p2 + p3, np.array([M, 0, 0, 0]), atol=1e-9):
